@@ -264,3 +264,5 @@ _thorough("C15", "C15_textkv4", "as C15_textkv with 4 commands", ["-witness", "5
 _quick("C03", "C03_cancel", "a holder and three queued requests, each with T=1 or T=100 (forks); 3 s later (the short ones answered TIMEOUT, possibly still in the queue behind a live one) a third client cancels one of the three by LockId", ["-witness", "1"], reach=["end", "cancel-dead", "cancel-live"])
 _quick("C16", "C16_second", "a second compaction: rewrite.aof from the first one records a re-entrant hold (depth 2) and a plain hold; the re-entrant hold then gives back a level / takes one more / has its terms updated / is released; rotation; second compaction; recovered holds with depth, deadline, Count, Rcount compared", ["-witness", "1"])
 _quick("C17", "C17_recycle", "5..8 keys with values on a fast key table of 4 slots (some parked in the long-expiry table), all released in ascending or descending order, wheel swept, then 24 fresh keys one after the other: no value shown, no free manager carrying a value, counters back", ["-witness", "1"])
+
+_quick("C09", "C09_publish", "every program of 4 persisted operations (LOCK / LOCK with a value / one-level UNLOCK on two keys) through LockDB, AofChannel, Aof.PushLock with rotation after two records: the records read back from the log files and the records a cursor pops from the replication ring are the same sequence with the same values", ["-witness", "20"], reach=["end", "rotated"])
